@@ -14,6 +14,7 @@ package c11
 
 import (
 	"context"
+	stdcrypto "crypto"
 	"database/sql"
 	"encoding/json"
 	"errors"
@@ -34,8 +35,11 @@ import (
 	"github.com/nuts-foundation/go-stoabs"
 	"github.com/nuts-foundation/nuts-node/audit"
 	nutsCrypto "github.com/nuts-foundation/nuts-node/crypto"
+	"github.com/nuts-foundation/nuts-node/crypto/hash"
 	"github.com/nuts-foundation/nuts-node/jsonld"
+	"github.com/nuts-foundation/nuts-node/network/dag"
 	"github.com/nuts-foundation/nuts-node/storage"
+	"github.com/nuts-foundation/nuts-node/vcr"
 	"github.com/nuts-foundation/nuts-node/vcr/credential"
 	"github.com/nuts-foundation/nuts-node/vcr/issuer"
 	"github.com/nuts-foundation/nuts-node/vcr/revocation"
@@ -156,6 +160,55 @@ type node struct {
 	status *revocation.StatusList2021
 	iss    issuer.Issuer
 	ver    verifier.Verifier
+	// environment answers of this node's key resolution / revocation store (nil = all fine)
+	fault *envFault
+	// the real receiver the ambassador registers for revocation transactions
+	revReceiver func(dag.Event) (bool, error)
+}
+
+// envFault: the next `left` calls at the seam fail with err (left < 0: every call, a permanent condition).
+type envFault struct {
+	seam string // key | store
+	err  error
+	left int
+}
+
+func (n *node) hit(seam string) error {
+	f := n.fault
+	if f == nil || f.seam != seam || f.left == 0 {
+		return nil
+	}
+	if f.left > 0 {
+		f.left--
+	}
+	return f.err
+}
+
+type envKeys struct {
+	inner resolver.KeyResolver
+	n     *node
+}
+
+func (k envKeys) ResolveKeyByID(keyID string, md *resolver.ResolveMetadata, rel resolver.RelationType) (stdcrypto.PublicKey, error) {
+	if err := k.n.hit("key"); err != nil {
+		return nil, err
+	}
+	return k.inner.ResolveKeyByID(keyID, md, rel)
+}
+func (k envKeys) ResolveKey(id did.DID, at *time.Time, rel resolver.RelationType) (string, stdcrypto.PublicKey, error) {
+	return k.inner.ResolveKey(id, at, rel)
+}
+
+type envStore struct {
+	verifier.Store
+	n *node
+}
+
+func (s envStore) StoreRevocation(r credential.Revocation) error {
+	if err := s.n.hit("store"); err != nil {
+		return err
+	}
+	return s.Store.StoreRevocation(r)
 }
 
 var jsonldMgr jsonld.JSONLD
@@ -196,7 +249,8 @@ func newNode(t testing.TB, name string, res resolver.DIDResolver, pub issuer.Pub
 	tc := trust.NewConfig(filepath.Join(dir, "trusted.yaml"))
 	n.status = revocation.NewStatusList2021(db, httpc, baseURL)
 	n.iss = issuer.NewIssuer(istore, nil, pub, nil, res, n.ks, jsonldMgr, tc, n.status)
-	n.ver = verifier.NewVerifier(vstore, res, resolver.DIDKeyResolver{Resolver: res}, jsonldMgr, tc, n.status)
+	n.ver = verifier.NewVerifier(envStore{Store: vstore, n: n}, res, envKeys{inner: resolver.DIDKeyResolver{Resolver: res}, n: n}, jsonldMgr, tc, n.status)
+	_, n.revReceiver = vcr.VerifAmbassadorReceivers(nil, n.ver)
 	return n
 }
 
@@ -399,16 +453,66 @@ func (w *world) revoke(c int) {
 	}
 }
 
-func (w *world) deliver(c int) {
+// deliverKinds: what the verifying node's environment answers while it processes the revocation it received.
+var deliverKinds = []string{"", "key-timeout", "key-canceled-wrapped", "store-timeout-wrapped", "store-canceled", "key-not-found"}
+
+func deliveryFault(kind string) (*envFault, bool) {
+	switch kind {
+	case "":
+		return nil, true
+	case "key-timeout":
+		return &envFault{seam: "key", err: context.DeadlineExceeded, left: 1}, true
+	case "key-canceled-wrapped":
+		return &envFault{seam: "key", err: fmt.Errorf("resolving: %w", context.Canceled), left: 1}, true
+	case "store-timeout-wrapped":
+		return &envFault{seam: "store", err: fmt.Errorf("leia: %w", context.DeadlineExceeded), left: 1}, true
+	case "store-canceled":
+		return &envFault{seam: "store", err: context.Canceled, left: 1}, true
+	case "key-not-found": // permanent: the key does not exist as far as this node can tell
+		return &envFault{seam: "key", err: resolver.ErrKeyNotFound, left: -1}, false
+	}
+	return nil, true
+}
+
+// deliver: the revocation transaction reaches node V through the REAL ambassador receiver. The persistent notifier
+// of the network layer is represented by its contract (network/dag/notifier.go): finished => done; an error that
+// is a dag.EventFatal => the event is dropped for good; any other outcome => the event is delivered again. The
+// fair suffix runs at once: redeliveries until nothing is pending (the injected fault is over after its first hit).
+func (w *world) deliver(c int, kind string) {
 	mc := w.m.Creds[c]
 	rev, ok := w.net.revs[mc.ID]
 	if !ok {
 		return
 	}
-	if err := w.V.ver.RegisterRevocation(rev); err != nil {
-		w.r.Observation("issuer-revocation-refused-by-verifying-node", err.Error())
+	payload, _ := json.Marshal(rev)
+	utx, err := dag.NewTransaction(hash.SHA256Sum(payload), types.RevocationLDDocumentType, nil, nil, 0)
+	if err != nil {
+		w.t.Fatal(err)
 	}
-	mc.VKnows = true
+	tx := utx.(dag.Transaction)
+	event := dag.Event{Type: dag.PayloadEventType, Hash: tx.Ref(), Transaction: tx, Payload: payload}
+	fault, transient := deliveryFault(kind)
+	w.V.fault = fault
+	state, attempts, lastErr := "pending", 0, error(nil)
+	for state == "pending" && attempts < 10 {
+		attempts++
+		finished, err := w.V.revReceiver(event)
+		lastErr = err
+		switch {
+		case err != nil && errors.As(err, new(dag.EventFatal)):
+			state = "dropped"
+		case err == nil && finished:
+			state = "finished"
+		}
+	}
+	w.V.fault = nil
+	known, _ := w.V.ver.IsRevoked(ssi.MustParseURI(mc.ID))
+	w.verdict[fmt.Sprintf("deliver %q -> %s after %d attempt(s), registered=%v", kind, state, attempts, known)]++
+	if transient && !known {
+		w.violation("received-revocation-lost", "delivery|"+kind, fmt.Sprintf("node V received the issuer's validly signed revocation of c%d; with the environment answer %q the event ended %s after %d attempt(s) (last error: %v) and the revocation is not registered: the credential keeps verifying on this node",
+			mc.N, kind, state, attempts, lastErr))
+	}
+	mc.VKnows = known // the model follows the node from here (no cascade of verdicts)
 }
 
 func bodyOf(lst *vc.VerifiableCredential) string {
@@ -809,6 +913,145 @@ func (w *world) attack(kind string) {
 	w.judge(mc, verdict, truth, "verifying")
 }
 
+// ------------------------------------------------------------------ near-miss signer identifiers
+
+// nearMisses computes, from an issuer DID, the identifiers an attacker would register to pass a sloppy comparison:
+// proper prefixes, extensions (character, digit, "-2", ":segment", ".host"), case changes, the same id under another
+// method. Only identifiers that parse as DIDs and differ from the original are kept.
+func nearMisses(d string) map[string]string {
+	out := map[string]string{}
+	add := func(class, v string) {
+		if v == d || v == "" {
+			return
+		}
+		if _, err := did.ParseDID(v); err != nil {
+			return
+		}
+		if _, dup := out[v]; !dup {
+			out[v] = class
+		}
+	}
+	add("prefix-minus-one-character", d[:len(d)-1])
+	add("prefix-minus-two-characters", d[:len(d)-2])
+	if i := strings.LastIndex(d, ":"); i > len("did:web:") {
+		add("prefix-parent-path", d[:i])
+	}
+	add("extension-character", d+"Z")
+	add("extension-digit", d+"2")
+	add("extension-dash", d+"-2")
+	add("extension-segment", d+":x")
+	add("extension-host", d+".attacker.net")
+	add("extension-percent", d+"%3Ax")
+	flip := []byte(d)
+	for i := len(flip) - 1; i > len("did:web:"); i-- {
+		c := flip[i]
+		if c >= 'a' && c <= 'z' {
+			flip[i] = c - 32
+			break
+		}
+		if c >= 'A' && c <= 'Z' {
+			flip[i] = c + 32
+			break
+		}
+	}
+	add("case-change", string(flip))
+	parts := strings.SplitN(d, ":", 3)
+	if len(parts) == 3 {
+		for _, m := range []string{"web", "nuts", "key", "jwk"} {
+			if m != parts[1] {
+				add("other-method-same-id", "did:"+m+":"+parts[2])
+			}
+		}
+	}
+	return out
+}
+
+// enrol makes a DID resolvable with a key of its own (held by node I's key store, which plays every signer).
+func (w *world) enrol(d did.DID) {
+	if _, ok := w.res.docs[d.String()]; ok {
+		return
+	}
+	_, pub, err := w.I.ks.New(w.ctx, nutsCrypto.StringNamingFunc(kidOf(d)))
+	if err != nil {
+		w.t.Fatal(err)
+	}
+	vm, err := did.NewVerificationMethod(did.MustParseDIDURL(kidOf(d)), ssi.JsonWebKey2020, d, pub)
+	if err != nil {
+		w.t.Fatal(err)
+	}
+	doc := did.Document{Context: []interface{}{did.DIDContextV1URI()}, ID: d}
+	doc.AddAssertionMethod(vm)
+	w.res.docs[d.String()] = doc
+}
+
+// nearMissSweep: for the did:nuts and the did:web identity of issuer 1, every near-miss identifier x every forged
+// shape, against one credential each; every forgery must be refused and change nothing.
+func nearMissSweep(t *testing.T, r *ev.Run) {
+	build(t, r, "fresh", []event{{Op: "issueNuts", I: 1}, {Op: "issueSL", I: 1}}, func(w *world) {
+		w.start = "near-miss"
+		n, refused := 0, 0
+		for _, mc := range w.m.Creds {
+			victim := issuerDID(1, mc.SL)
+			subject := ssi.MustParseURI(mc.ID)
+			misses := nearMisses(victim.String())
+			ids := make([]string, 0, len(misses))
+			for id := range misses {
+				ids = append(ids, id)
+			}
+			sortStrings(ids)
+			for _, id := range ids {
+				attacker := did.MustParseDID(id)
+				w.enrol(attacker)
+				now := vtime.Now()
+				shapes := map[string]map[string]interface{}{
+					// names the victim as issuer; proof by the attacker's own, resolvable key
+					"issuer-is-victim/key-of-near-miss": w.signLD(credential.BuildRevocation(victim.URI(), subject), kidOf(attacker), now),
+					// the attacker signs as itself and names the victim's credential
+					"issuer-is-near-miss": w.signLD(credential.BuildRevocation(attacker.URI(), subject), kidOf(attacker), now),
+				}
+				for _, shape := range []string{"issuer-is-victim/key-of-near-miss", "issuer-is-near-miss"} {
+					b, _ := json.Marshal(shapes[shape])
+					var rev credential.Revocation
+					if err := json.Unmarshal(b, &rev); err != nil {
+						t.Fatalf("harness: %v", err)
+					}
+					n++
+					class := shape + "|" + misses[id]
+					r.Eval("near-miss|" + victim.Method + "|" + class)
+					w.hist = []event{{Op: "forgeRev", K: shape + " signer " + id + " victim " + victim.String()}}
+					err := w.V.ver.RegisterRevocation(rev)
+					known, _ := w.V.ver.IsRevoked(subject)
+					switch {
+					case err == nil || known:
+						w.violation("forged-revocation-accepted", class, fmt.Sprintf("node V registered (error: %v, listed as revoked: %v) a revocation of credential c%d of %s made by %s", err, known, mc.N, victim, attacker))
+						r.Outcome("near-miss forgery accepted")
+						return // the credential is revoked now; later forgeries would tell nothing
+					default:
+						refused++
+						r.Outcome("near-miss forgery refused")
+					}
+				}
+			}
+			if verdict := w.verifyOn(w.V, mc.N); verdict != "ok" {
+				w.violation("forged-revocation-effective", "near-miss", fmt.Sprintf("after the refused forgeries credential c%d no longer verifies on node V: %s", mc.N, verdict))
+			}
+		}
+		if n < 20 {
+			t.Fatalf("harness: only %d near-miss forgeries were generated", n)
+		}
+		r.Bound("near_miss_forgeries", n)
+		r.AddExtra("near_miss_forgeries_refused", int64(refused))
+	})
+}
+
+func sortStrings(xs []string) {
+	for i := 1; i < len(xs); i++ {
+		for j := i; j > 0 && xs[j] < xs[j-1]; j-- {
+			xs[j], xs[j-1] = xs[j-1], xs[j]
+		}
+	}
+}
+
 // ------------------------------------------------------------------ events
 
 func (w *world) apply(e event) {
@@ -821,7 +1064,7 @@ func (w *world) apply(e event) {
 	case "revoke":
 		w.revoke(e.C)
 	case "deliver":
-		w.deliver(e.C)
+		w.deliver(e.C, e.K)
 	case "check":
 		w.check()
 	case "advance":
@@ -869,7 +1112,9 @@ func (w *world) enabled(b bounds) []event {
 	for _, mc := range w.m.Creds {
 		out = append(out, event{Op: "revoke", C: mc.N})
 		if mc.RevPublished && !mc.VKnows {
-			out = append(out, event{Op: "deliver", C: mc.N})
+			for _, k := range deliverKinds {
+				out = append(out, event{Op: "deliver", C: mc.N, K: k})
+			}
 		}
 	}
 	out = append(out, event{Op: "check"})
@@ -964,13 +1209,20 @@ func TestVerifC11BFS(t *testing.T) {
 	r := ev.Start(t, "C11")
 	defer r.Finish()
 	r.Rule("event histories over {issue status-list / nuts credential (2 issuers), revoke(c), deliver nuts revocation(c), check (serve every page + verify every credential on both nodes), " +
-		"advance clock 16m / 19h / 25h, 5 forged revocations, 6 forged lists at the named URL} from two start states (fresh; issuer 1's page two slots before roll-over), " +
+		"advance clock 16m / 19h / 25h, 5 forged revocations, 6 forged lists at the named URL}; network revocations reach node V through the real ambassador receiver under 6 environment answers (fine, key / store time-out or cancellation once, key permanently not found) with redelivery until nothing is pending; " +
+		"plus once per run: every near-miss of the issuer's did:nuts and did:web identifier (prefixes, extensions, case, other method) x 2 forged shapes from two start states (fresh; issuer 1's page two slots before roll-over), " +
 		"breadth-first with canonical-state de-duplication below every history prefix of length 2; a state is distinct by its canonical form")
 	r.Assume("DID resolution is a static table; JSON-LD, jwx and SQLite are exercised, not modelled; node V and node I share the virtual clock; " +
 		"a list validly signed by a DID other than the credential's issuer served at the named URL is recorded as an observation (DESIGN §4 row 18) and the state is not explored further")
 
 	var rc replayCase
 	if r.ReplayCase(&rc) {
+		if rc.Start == "near-miss" {
+			nearMissSweep(t, r)
+			r.States(1)
+			r.Transitions(1)
+			return
+		}
 		build(t, r, rc.Start, rc.History, func(w *world) { r.Eval(w.canon()) })
 		r.States(1)
 		r.Transitions(int64(len(rc.History)))
@@ -998,6 +1250,9 @@ func TestVerifC11BFS(t *testing.T) {
 			t.Fatalf("harness: honest nuts history gives verdicts %v", w.verdict)
 		}
 	})
+	if ws, _ := r.Shard(); ws == 0 {
+		nearMissSweep(t, r) // bounded-exhaustive input sweep, once per run
+	}
 	build(t, r, "seeded", []event{{Op: "issueSL", I: 1}, {Op: "issueSL", I: 1}}, func(w *world) {
 		a, b := w.m.Creds[0], w.m.Creds[1]
 		if a.Index != maxIndex || b.Index != 0 || a.URL == b.URL {
